@@ -276,6 +276,8 @@ func (p *Path) frameCheck(site string, locs []Loc) {
 		fx.mayWrite[l.Heap] = true
 		var f string
 		switch {
+		case l.AllTag != 0:
+			f = "false"
 		case l.All:
 			f = "false"
 		case l.MapRow:
